@@ -3,6 +3,7 @@
 Real `Screen.save_h5 / load_h5` and `ExperimentSpace.save_h5 / load_h5` through temp files, 1 + (0..3) cycles,
 on generated screens.  Oracle: every observable of the reloaded object equals the original's.  Tie: the
 byte-level model (`saveloadb`, `space`, `codec` of lean/Batchie/Model/RetroIO.lean) prints the same."""
+import contextlib
 import os
 import shutil
 import tempfile
@@ -13,6 +14,26 @@ from vlib import common
 from harness import screens as S
 
 common.use_repo_sources()
+
+
+@contextlib.contextmanager
+def maybe_verbose(case):
+    """cases with "verbose": true run the way every command runs under -v/--verbose (replay re-enters this)"""
+    if case.get("verbose"):
+        with common.verbose_logging():
+            yield
+    else:
+        yield
+
+
+def verbose_aware(fn):
+    import functools
+
+    @functools.wraps(fn)
+    def wrapped(case, *a, **kw):
+        with maybe_verbose(case):
+            return fn(case, *a, **kw)
+    return wrapped
 
 RULE = ("random valid screens (arity 1-3, 0..n_max rows, non-ASCII/astral/empty/unequal-length names, empty control name, "
         "doses incl. -0.0/subnormal/1e300, observation bit patterns incl. NaN payloads, -0.0, inf, any plate-uniform mask or none), "
@@ -31,9 +52,18 @@ RULE = ("random valid screens (arity 1-3, 0..n_max rows, non-ASCII/astral/empty/
         "instance attributes of the saved object snapshotted), attribute completeness (vars(), every property of the class and every h5 "
         "dataset/attribute by enumeration; files of cycle k equal the file of cycle 1), hand-made mappings always >= 2 cycles, 6% screens "
         "with >= 11 samples/plates/treatments with numeric suffixes, up to 10 saved files re-loaded in another interpreter (other PYTHONHASHSEED). "
-        "Non-trivial: >= 2 rows and (superset mapping or non-ASCII name or both observed and unobserved plates).")
+        "class.verbose-logging: every 7th screen (+ three corpus screens, every 5th merged screen) is built, saved and loaded under "
+        "vlib.common.verbose_logging() (replay re-enters it); class.load-path.nan-inf-observations: NaN (several payloads), +inf and -inf "
+        "observation values on observed and hidden rows (fixed corpus + 15% of the screens) compared bit for bit after every load.  "
+        "Entry points: the property names no command-line stage (save_h5 / load_h5 are library calls; the CLIs that load and save screens are "
+        "driven by C03 and C12).  Merged stream (class.stale-derived-state): 40 screens per quick run whose plates were merged IN PLACE by 1-3 Plate.merge calls "
+        "(the disappearing plate name being the first / a middle / the last in sort order, merges of merged plates) or by MergeMinPlateSmoother / "
+        "MergeTopBottomPlateSmoother, before the first save or between two saves (other path / same path), >= 2 cycles; every per-row "
+        "observable of the reloaded screen equals the in-memory screen's at save time and its plate ids decode to those names (the "
+        "derived plate_mapping attribute, stale after a merge on the unchanged code, is not compared but counted); the model is asked "
+        "about the post-merge rows.  Non-trivial: >= 2 rows and (superset mapping or non-ASCII name or both observed and unobserved plates).")
 
-OBS_VALUES = [0.0, -0.0, 1.0, 0.5, 0.25, 0.1, 0.3333333333333333, 1e-300, 5e-324, 1e300, 2.0, -1.5, float("inf"),
+OBS_VALUES = [0.0, -0.0, 1.0, 0.5, 0.25, 0.1, 0.3333333333333333, 1e-300, 5e-324, 1e300, 2.0, -1.5, float("inf"), float("-inf"),
               0.7000000000000001, 0.9]
 NAN_BITS = [0x7FF8000000000000, 0x7FF8000000000001, 0xFFF8000000000000, 0x7FF4000000000000]
 
@@ -68,6 +98,13 @@ CORPUS.append({"kind": "corpus-long-mapping-names", "cycles": 3, "layout": "fort
                                         [1.0, 2.0, 3.0, 0.0, 0.5, 1.0, 0.25, 2.0], [0, 1, 2, -1, 3, 4, 5, 6]),
                            smap=(["s1", "s2", "s3", LONG_NAMES[2]], [0, 1, 2, 3]))})
 
+# NaN (two payloads) / +inf / -inf observation values on OBSERVED and on HIDDEN rows: compared bit for bit after every load
+CORPUS.append({"kind": "corpus-nan-inf-observations", "cycles": 3,
+               "raw": dict(ctrl="control", arity=2, tnames=[["a", "b"]] * 8, tdoses=[[1.0, 2.0]] * 8, snames=["s1", "s2"] * 4,
+                           pnames=["p1", "p2"] * 4,
+                           obs=[S.from_bits(0x7FF8000000000000), S.from_bits(0x7FF8000000000001), float("inf"), float("inf"),
+                                float("-inf"), float("-inf"), S.from_bits(0xFFF8000000000000), S.from_bits(0x7FF4000000000000)],
+                           mask=[True, False] * 4, tmap=None, smap=None)})
 # hand-made mapping tables (rows not sorted, ids not in table order) and names with leading / trailing whitespace
 CORPUS.append({"kind": "corpus-hand-made-mapping", "cycles": 2,
                "raw": dict(_ASYM, tmap=(["dd", "control", "b", "zz", "\u00e9", "a", "c"], [0.5, 0.0, 2.0, 1.0, 0.25, 1.0, 3.0],
@@ -340,20 +377,43 @@ def props_snapshot(obj):
 
 
 def h5_dump(fn):
-    """every dataset and attribute of an h5 file, by enumeration; bytes cells decoded, floats by bits"""
+    """every dataset and attribute of an h5 file, discovered by walking the file (no dataset name or group structure is assumed:
+    the layout is not a property); bytes cells as hex, floats by bits, compound / other dtypes by repr"""
     import h5py
     out = {}
+
+    def visit(name, obj):
+        if isinstance(obj, h5py.Dataset):
+            try:
+                a = np.asarray(obj[()])
+                if a.dtype.kind == "S":
+                    out["/" + name] = ["S", list(a.shape), [bytes(x).hex() for x in a.ravel().tolist()]]
+                elif a.dtype.names:
+                    out["/" + name] = ["compound", list(a.shape), repr(a.tolist())]
+                else:
+                    out["/" + name] = canon(a)
+            except Exception as e:
+                out["/" + name] = ["unreadable", type(e).__name__]
+        for k in sorted(obj.attrs.keys()):
+            out["/" + name + "@" + k] = canon(obj.attrs[k])
+
     with h5py.File(fn, "r") as f:
-        for k in sorted(f.keys()):
-            a = f[k][()]
-            a = np.asarray(a)
-            if a.dtype.kind == "S":
-                out["/" + k] = ["S", list(a.shape), [bytes(x).hex() for x in a.ravel().tolist()]]
-            else:
-                out["/" + k] = canon(a)
+        f.visititems(visit)
         for k in sorted(f.attrs.keys()):
             out["@" + k] = canon(f.attrs[k])
     return out
+
+
+LAYOUT_TIES = [0]
+
+
+def layout_tie(res, what, case, detail, expected):
+    """the harness's own raw access to a file batchie wrote met something it did not expect: knowledge about the CURRENT file layout
+    is part of the tie, never an oracle (a refactor may change the layout as long as its loader reads old and new files)"""
+    res.count("layout.unexpected")
+    LAYOUT_TIES[0] += 1
+    if LAYOUT_TIES[0] <= 3:
+        res.disagree("C02:file-layout", {"kind": case.get("kind"), "what": what}, str(detail)[:300], str(expected)[:300])
 
 
 def dict_diff(a, b):
@@ -481,10 +541,161 @@ def gen_case(rng, n_max):
     return {"kind": kind, "raw": raw, "cycles": cycles, "layout": layout, "permuted": permuted, "whitespace": ws}
 
 
+# ------------------------------------------------------------------------------------------------
+# screens whose plates were merged IN PLACE (`Plate.merge`, the merge smoothers) before / between saves
+# ------------------------------------------------------------------------------------------------
+
+MERGE_NAMES = ["run_A", "run_B", "run_C", "run_D", "run_E", "run_F"]
+SIG_MERGED = "C02:merged-plates-screen"
+
+
+def gen_merge_case(rng):
+    """A screen with 4-6 plates (one sample per plate, rows of the plates interleaved, every plate unobserved or one status per
+    plate) on which 1-3 `Plate.merge` calls run in place -- into the alphabetically first / a middle / the last plate name,
+    merges of already merged plates -- or a real merge smoother.  `schedule`: 'pre' = merges before the first save;
+    'between-other' / 'between-same' = save, merge, save again to another / the same path.  `Plate.merge` rewrites `plate_names`
+    and the plate ids but leaves the derived `plate_mapping` attribute stale (behaviour of the unchanged code)."""
+    k = rng.randint(4, 6)
+    names = MERGE_NAMES[:k] if rng.random() < 0.6 else rng.sample([x for x in S.NAME_POOL if x], k)
+    n = rng.randint(k + 2, k + 8)
+    pn = names + [rng.choice(names) for _ in range(n - k)]
+    rng.shuffle(pn)
+    sample_of = {p: "s%d" % (i % 3) for i, p in enumerate(sorted(names))}
+    a = rng.choice([1, 2])
+    tpool = ["a", "b", "c", "control", "\u00e9"]
+    status = {p: False for p in names} if rng.random() < 0.6 else {p: rng.random() < 0.4 for p in names}
+    raw = dict(ctrl="control", arity=a, tnames=[[rng.choice(tpool) for _ in range(a)] for _ in pn],
+               tdoses=[[rng.choice([1.0, 2.5, 0.1, 0.0]) for _ in range(a)] for _ in pn], snames=[sample_of[p] for p in pn], pnames=pn,
+               obs=[rng.choice(OBS_VALUES) for _ in pn], mask=[status[p] for p in pn], tmap=None, smap=None)
+    mode = rng.choice(["merge", "merge", "merge", "smoother-min", "smoother-topbottom"])
+    steps = []
+    if mode == "merge":
+        # the steps are chosen on a scratch copy: `Plate.merge` names the merged plate after the FIRST row of the union, so which
+        # name survives depends on the row order
+        scratch = S.build(raw)
+        for _ in range(rng.randint(1, 3)):
+            cur = sorted(set(str(x) for x in scratch.plate_names))
+            if len(cur) < 2:
+                break
+            where = rng.choice(["first", "middle", "last"])
+            target = cur[0] if where == "first" else cur[-1] if where == "last" else cur[len(cur) // 2]
+            others = [x for x in cur if x != target and status[x] == status[target]]
+            if not others:
+                continue
+            other = rng.choice(others)
+            before = set(cur)
+            apply_merge(scratch, target, other)
+            gone = sorted(before - set(str(x) for x in scratch.plate_names))[0]
+            steps.append([target, other, "first" if gone == cur[0] else "last" if gone == cur[-1] else "middle"])
+    else:
+        raw["mask"] = [False] * n                   # the smoothers work on the unobserved part
+    return {"kind": "merged", "mode": mode, "raw": raw, "steps": steps, "cycles": rng.randint(2, 3),
+            "schedule": rng.choice(["pre", "pre", "between-other", "between-same"]) if mode == "merge" and steps else "pre",
+            "param": rng.randint(2, 6), "obs_bits": obs_bits_list(raw)}
+
+
+def apply_merge(s, target, other):
+    names = [str(x) for x in s.plate_names]
+    ids = [int(x) for x in s.plate_ids]
+    s.get_plate(ids[names.index(target)]).merge(s.get_plate(ids[names.index(other)]))
+
+
+def per_row(s, merged):
+    """what is compared for a screen whose plates were merged in place: every observable except the derived `plate_mapping`
+    attribute, which `Plate.merge` leaves stale on the unchanged tree"""
+    o = observables(s)
+    if merged:
+        o.pop("plate_mapping")
+    return o
+
+
+@verbose_aware
+def run_merge_case(case, tmp, res):
+    """returns (model line, expected output) -- the model is asked about the POST-merge rows"""
+    import logging
+    from batchie.data import Screen
+    raw = dict(case["raw"])
+    if case.get("obs_bits") is not None:
+        raw["obs"] = [S.from_bits(b) for b in case["obs_bits"]]
+    case = dict(case, part="screen")
+    s = S.build(raw)
+    f1, f2 = os.path.join(tmp, "m1.h5"), os.path.join(tmp, "m2.h5")
+    steps = list(case["steps"])
+    logging.disable(logging.CRITICAL)
+    try:
+        if case["mode"] == "smoother-min":
+            from batchie.retrospective import MergeMinPlateSmoother
+            s = MergeMinPlateSmoother(min_size=case["param"]).smooth_plates(s, np.random.default_rng(0))
+        elif case["mode"] == "smoother-topbottom":
+            from batchie.retrospective import MergeTopBottomPlateSmoother
+            s = MergeTopBottomPlateSmoother(n_iterations=1 + case["param"] % 2).smooth_plates(s, np.random.default_rng(0))
+    finally:
+        logging.disable(logging.NOTSET)
+    early = steps if case["schedule"] == "pre" else steps[:-1]
+    for t, o, _ in early:
+        apply_merge(s, t, o)
+
+    def stale(x):
+        fresh = sorted(set(str(p) for p in x.plate_names))
+        return [str(p) for p in x.plate_mapping[0]] != fresh
+
+    def cycle(obj, fn, label, k):
+        """save obj to fn, load, compare with obj AT SAVE TIME; returns the loaded screen or None"""
+        want = per_row(obj, True)
+        obj.save_h5(fn)
+        try:
+            back = Screen.load_h5(fn)
+        except Exception as e:
+            res.fail("a screen whose plates were merged in place saves but does not load (%s)" % label, case,
+                     "%s: %s" % (type(e).__name__, e), "the saved screen", signature=SIG_MERGED)
+            return None
+        got = per_row(back, True)
+        d = first_diff(want, got)
+        if d is not None:
+            res.fail("observable '%s' of a screen whose plates were merged in place changed after save/load cycle %d (%s)" % (d[0], k, label),
+                     case, {"field": d[0], "after": d[2]}, {"field": d[0], "in_memory_at_save_time": d[1]}, signature=SIG_MERGED)
+            return None
+        # the reloaded screen's plate ids decode to its per-row plate names through its own plate mapping
+        pm = {int(i): str(nm) for nm, i in zip(*back.plate_mapping)}
+        dec = [pm.get(int(i)) for i in back.plate_ids]
+        if dec != want["plate_names"]:
+            res.fail("plate ids of the reloaded screen do not decode to the plate names the rows had at save time (%s)" % label, case,
+                     {"decoded": dec}, {"plate_names": want["plate_names"]}, signature=SIG_MERGED)
+            return None
+        return back
+
+    if stale(s):
+        res.count("class.stale-derived-state.plate-mapping-stale-at-save")
+    cur = s
+    ok = True
+    if case["schedule"] != "pre":
+        # an instalment: the screen is saved, merged further in place, and saved again (other path / same path)
+        back = cycle(s, f1, "before the last merge", 1)
+        ok = back is not None
+        t, o, _ = steps[-1]
+        apply_merge(s, t, o)
+        if stale(s):
+            res.count("class.stale-derived-state.plate-mapping-stale-at-save")
+        fn = f2 if case["schedule"] == "between-other" else f1
+    else:
+        fn = f1
+    for k in range(case["cycles"]):
+        if not ok:
+            break
+        nxt = cycle(cur, fn, case["schedule"], k + 1)
+        ok = nxt is not None
+        cur = nxt if ok else cur
+        fn = f2 if fn == f1 else f1
+    final = S.raw_of_screen(s, with_maps=True)
+    line = "saveloadb %d %s" % (case["cycles"], S.raw_to_tokens(final))
+    return line, (show_stage(cur) if ok else None)
+
+
 def obs_bits_list(raw):
     return None if raw["obs"] is None else [S.bits(x) for x in raw["obs"]]
 
 
+@verbose_aware
 def run_screen_case(case, tmp, res, check=True):
     """runs the implementation; returns (line for the model, expected output, screen or None)"""
     from batchie.data import Screen
@@ -517,25 +728,29 @@ def run_screen_case(case, tmp, res, check=True):
             # file level, every dataset and attribute by enumeration: the second and later saves write what the first wrote
             try:
                 dump = h5_dump(fn)
-            except Exception:
+            except Exception as e:
                 dump = {}
+                layout_tie(res, "walking the saved file", case, "%s: %s" % (type(e).__name__, e), "an HDF5 file of datasets and attributes")
             if dump1 is None:
                 dump1 = dump
             else:
                 # what is IN the file is not an observable of the property (only what load_h5 returns is): counted, not judged
                 if dict_diff(dump1, dump) is not None:
                     res.count("file.cycle-k-differs-from-cycle-1")
-        if check:
+        if check and cur.size:
+            # raw read of the three id datasets the current layout stores next to the rows (load_h5 does not read them): tie only
             try:
                 import h5py
                 with h5py.File(fn, "r") as f:
-                    stored = ([[int(x) for x in r] for r in f["treatment_ids"][:]] if cur.size else [],
+                    stored = ([[int(x) for x in r] for r in f["treatment_ids"][:]],
                               [int(x) for x in f["sample_ids"][:]], [int(x) for x in f["plate_ids"][:]])
                 have = (want["treatment_ids"], want["sample_ids"], want["plate_ids"])
-                if cur.size and stored != have:
-                    res.count("file.stored-ids-differ-from-screen")  # load_h5 does not read them: not an observable, not judged
-            except Exception:
-                res.count("file.stored-ids-not-readable")
+                if stored != have:
+                    res.count("file.stored-ids-differ-from-screen")
+                    layout_tie(res, "ids stored in the file differ from the screen's ids", case, stored, have)
+            except Exception as e:
+                layout_tie(res, "raw read of treatment_ids / sample_ids / plate_ids", case, "%s: %s" % (type(e).__name__, e),
+                           "three integer datasets with these names")
         try:
             cur = Screen.load_h5(fn)
         except Exception as e:
@@ -583,6 +798,7 @@ def run_screen_case(case, tmp, res, check=True):
     return line, out, s0
 
 
+@verbose_aware
 def run_space_case(case, tmp, res, s0):
     from batchie.data import ExperimentSpace
     case = dict(case, part="space")
@@ -662,6 +878,12 @@ def run(ctx, res):
             else:
                 case = gen_case(rng, n_max)
             case["obs_bits"] = obs_bits_list(case["raw"])
+            case["verbose"] = (t % 7 == 3) or (t < 0 and case["kind"] in ("corpus-nan-inf-observations", "corpus-zero-row", "corpus-superset"))
+            if case["verbose"]:
+                res.count("class.verbose-logging")
+            ob_ = case["obs_bits"] or []
+            if any((b >> 52) & 0x7FF == 0x7FF for b in ob_):
+                res.count("class.load-path.nan-inf-observations")
             raw = case["raw"]
             res.evaluations += 1
             res.count("kind." + case["kind"])
@@ -734,6 +956,30 @@ def run(ctx, res):
                     pass
             if rng.random() < 0.02:
                 res.sample({"kind": case["kind"], "cycles": case["cycles"], "line": line[:300], "impl": out[:300]})
+        # screens whose plates were merged in place before / between saves (stale derived state, instalments)
+        for t in range(ctx.scale(40, 500, 300)):
+            case = gen_merge_case(rng)
+            case["verbose"] = t % 5 == 2
+            if case["verbose"]:
+                res.count("class.verbose-logging")
+            res.evaluations += 1
+            res.count("class.stale-derived-state")
+            res.count("merged.%s.%s" % (case["mode"], case["schedule"]))
+            for st in case["steps"]:
+                res.count("merged.disappearing-name-" + st[2])
+            try:
+                line, out = run_merge_case(case, tmp, res)
+            except Exception as e:
+                res.fail("merging plates / saving a merged screen raises", dict(case, part="screen"), "%s: %s" % (type(e).__name__, e),
+                         "a saved screen", signature=SIG_MERGED)
+                continue
+            if out is not None:
+                lines.append(line)
+                expect.append(out)
+                cases.append(case)
+                where.append("C02:saveload:merged")
+                if len(set(case["raw"]["pnames"])) >= 3:
+                    res.nontrivial.add(common.short_hash([case["raw"], case["steps"], case["schedule"]]))
         # cross-process determinism: the files load to the same screens in another interpreter with another hash seed
         if xproc:
             try:
@@ -778,6 +1024,13 @@ def replay(ctx, case, res):
             line, out, dec = run_codec_case(case["names"], tmp)
             if case["names"] and dec != S.lst(S.name_tok(x) for x in case["names"]):
                 res.fail("string table does not survive encode/h5/decode", case, dec, case["names"])
+            return
+        if case.get("kind") == "merged":
+            try:
+                run_merge_case(case, tmp, res)
+            except Exception as e:
+                res.fail("merging plates / saving a merged screen raises", case, "%s: %s" % (type(e).__name__, e), "a saved screen",
+                         signature=SIG_MERGED)
             return
         part = case.get("part")
         try:
